@@ -386,11 +386,10 @@ def _reciprocal(x):
 @safediv.register(array, array)
 @safediv.register(numbers.Number, array)
 def _safediv(x, y):
-    try:
-        finfo = np.finfo(y.dtype)
-    except ValueError:
-        finfo = np.iinfo(y.dtype)
-    return x * np.clip(np.reciprocal(y), None, finfo.max)
+    if y.dtype.kind in "iub":
+        # np.reciprocal of an integer array is integer division (0 for |y| > 1)
+        y = y.astype(np.float64)
+    return x * np.clip(np.reciprocal(y), None, np.finfo(y.dtype).max)
 
 
 @safesub.register(array, array)
